@@ -9,6 +9,8 @@ import (
 	"crypto/ecdsa"
 	"crypto/elliptic"
 	"crypto/rsa"
+	"crypto/hmac"
+	"encoding/binary"
 	"encoding/json"
 	"fmt"
 	"math/big"
@@ -20,6 +22,9 @@ var vC16KeyAlgs = []KeyAlgorithm{RSA1_5, RSA_OAEP, RSA_OAEP_256, A128KW, A192KW,
 	ECDH_ES_A128KW, ECDH_ES_A192KW, ECDH_ES_A256KW, A128GCMKW, A192GCMKW, A256GCMKW}
 var vC16Encs = []ContentEncryption{A128GCM, A192GCM, A256GCM, A128CBC_HS256, A192CBC_HS384, A256CBC_HS512}
 var vC16Sizes = []int{0, 1, 15, 16, 17, 100, 4096}
+
+// valid compact serializations seen so far (sources of the mutated malformed stream)
+var vC16PoolJWS, vC16PoolJWE []string
 
 func vC16Gen(family string, alg, enc string, zip, size, ser int, seed uint64) vSx {
 	return vL(vS("gen"), vS(family), vS(alg), vS(enc), vI(zip), vI(size), vI(ser), vU(seed))
@@ -316,6 +321,9 @@ func vC16RunJWS(k *vKit, gen vSx, r *vRng, alg string, size, ser int) {
 		})
 		return out, err, pan
 	}
+	if ser == 0 && len(text) < 700 && len(vC16PoolJWS) < 64 {
+		vC16PoolJWS = append(vC16PoolJWS, text)
+	}
 	out, err, pan := verify(text, vk)
 	if pan != "" || err != nil || !bytes.Equal(out, payload) {
 		fail("roundtrip", fmt.Sprintf("Verify returned %x, %v %s; payload %x", out, err, pan, payload))
@@ -566,6 +574,9 @@ func vC16RunJWE(k *vKit, gen vSx, r *vRng, alg, enc string, zip, size, ser int) 
 			return err
 		})
 		return out, gotAad, err, pan
+	}
+	if ser == 0 && len(text) < 900 && len(vC16PoolJWE) < 64 {
+		vC16PoolJWE = append(vC16PoolJWE, text)
 	}
 	// 1. exact round trip
 	out, gotAad, err, pan := decrypt(text, dk)
@@ -841,4 +852,164 @@ func vC16Fixed(k *vKit) {
 		}
 	}
 	_ = elliptic.P256
+}
+
+// peer-supplied JWK texts: parse, then use the key (thumbprint, marshal, validity, as a
+// verification key) -- never a panic.  Direct oracle only.
+func vC16JWKUse(k *vKit, text string) {
+	msg := vPanicText(func() {
+		var jwk JsonWebKey
+		if err := jwk.UnmarshalJSON([]byte(text)); err != nil {
+			k.count("jwk-text", "rejected")
+			return
+		}
+		k.count("jwk-text", "parsed")
+		jwk.Valid()
+		jwk.Thumbprint(5)
+		jwk.MarshalJSON()
+		if o, err := ParseSigned("eyJhbGciOiJIUzI1NiJ9.AP8Q.AQIDBAU"); err == nil {
+			o.Verify(&jwk)
+		}
+	})
+	if msg != "" {
+		k.fail(0, len(text), "jwk-no-panic", "", fmt.Sprintf("JWK %s: %s", text, msg))
+	}
+}
+
+func vC16JWKFuzz(k *vKit) {
+	// the C07 builder's witness (fixed cf16c6f) and neighbours
+	for _, t := range []string{
+		`{"kty":"RSA","n":"AQ","e":"AA"}`, `{"kty":"RSA","n":"AQ","e":""}`, `{"kty":"RSA","n":"","e":"AQAB"}`,
+		`{"kty":"RSA","n":"AA","e":"AA","d":"AA","p":"AA","q":"AA"}`, `{"kty":"EC","crv":"P-256","x":"","y":""}`,
+		`{"kty":"EC","crv":"P-256","x":"AA","y":"AA","d":""}`, `{"kty":"oct","k":""}`, `{"kty":"oct"}`, `{}`,
+	} {
+		vC16JWKUse(k, t)
+	}
+	r := k.rnd.fork()
+	val := func() string {
+		switch r.intn(6) {
+		case 0:
+			return ""
+		case 1:
+			return "AA"
+		case 2:
+			return "AQAB"
+		case 3:
+			return vC16B64.EncodeToString(r.bytes(r.pickInt(1, 31, 32, 33, 66, 256)))
+		case 4:
+			return vC16B64.EncodeToString(make([]byte, r.pickInt(1, 8, 32)))
+		}
+		return string(vC16RandText(r, r.intn(8)))
+	}
+	ec := vC16K.ec["P-256"]
+	for i, n := 0, k.N(400, 20000); i < n; i++ {
+		m := map[string]string{"kty": r.pickStr("RSA", "RSA", "EC", "EC", "oct", "x", "")}
+		for _, f := range []string{"n", "e", "d", "p", "q", "dp", "dq", "qi", "x", "y", "k", "crv"} {
+			if r.chance(1, 2) {
+				m[f] = val()
+			}
+		}
+		if r.chance(1, 2) {
+			m["crv"] = r.pickStr("P-256", "P-384", "P-521", "P-255")
+		}
+		if m["kty"] == "EC" && r.chance(1, 3) { // a real point, sometimes with a damaged member
+			m["crv"] = "P-256"
+			m["x"] = vC16B64.EncodeToString(ec.X.Bytes())
+			m["y"] = vC16B64.EncodeToString(ec.Y.Bytes())
+			if r.chance(1, 2) {
+				m[r.pickStr("x", "y", "d", "crv")] = val()
+			}
+		}
+		js, _ := json.Marshal(m)
+		vC16JWKUse(k, string(js))
+	}
+}
+
+// objects only a sender who knows the content key can build (anyone, for RSA/ECDH recipients):
+// authenticated CBC-HMAC objects with an empty ciphertext or a short IV, JSON objects without
+// a protected header.  Decrypt must return an error or the plaintext -- never panic.
+func vC16Crafted(k *vKit) {
+	r := k.rnd.fork()
+	for _, enc := range []ContentEncryption{A128CBC_HS256, A192CBC_HS384, A256CBC_HS512} {
+		key := r.bytes(vC16EncSize(string(enc)))
+		half := len(key) / 2
+		_, hf := vC16RefHash(string(enc)[len(enc)-3:])
+		e, _ := NewEncrypter(DIRECT, enc, key)
+		obj, err := e.Encrypt([]byte("crafted"))
+		if err != nil {
+			k.fail(0, 1, "encrypt", "", err.Error())
+			continue
+		}
+		text, _ := obj.CompactSerialize()
+		p := strings.Split(text, ".")
+		ivb, _ := vC16B64.DecodeString(p[2])
+		ctb, _ := vC16B64.DecodeString(p[3])
+		retag := func(iv, ct []byte) string {
+			m := hmac.New(hf, key[:half])
+			m.Write([]byte(p[0]))
+			m.Write(iv)
+			m.Write(ct)
+			al := make([]byte, 8)
+			binary.BigEndian.PutUint64(al, uint64(len(p[0]))*8)
+			m.Write(al)
+			return vC16B64.EncodeToString(m.Sum(nil)[:half])
+		}
+		for _, v := range []struct {
+			name   string
+			iv, ct []byte
+		}{{"empty-ciphertext", ivb, nil}, {"iv-8", ivb[:8], ctb}, {"iv-0", nil, ctb}, {"iv-17", append(append([]byte{}, ivb...), 0), ctb},
+			{"ciphertext-15", ivb, ctb[:15]}, {"ciphertext-plus-block", ivb, append(append([]byte{}, ctb...), make([]byte, 16)...)}} {
+			txt := strings.Join([]string{p[0], p[1], vC16B64.EncodeToString(v.iv), vC16B64.EncodeToString(v.ct), retag(v.iv, v.ct)}, ".")
+			var out []byte
+			err, pan := vC16Try(func() error {
+				o, err := ParseEncrypted(txt)
+				if err != nil {
+					return err
+				}
+				out, err = o.Decrypt(key)
+				return err
+			})
+			k.count("crafted", v.name)
+			if pan != "" {
+				k.fail(0, len(txt), "crafted-no-panic", "", fmt.Sprintf("%s %s: %s (%s)", enc, v.name, pan, txt))
+			} else if err == nil && v.name != "ciphertext-plus-block" {
+				k.fail(0, len(txt), "crafted-rejected", "", fmt.Sprintf("%s %s decrypted to %x", enc, v.name, out))
+			}
+			vC16RunStruct(k, vL(vZ(4), vS(txt)))
+		}
+	}
+	// JSON serialization without / with an empty protected header; alg and enc unprotected
+	key := r.bytes(16)
+	cph := getContentCipher(A128GCM)
+	for _, prot := range []string{"", `"protected":"",`} {
+		for _, aad := range []string{"", "AQID"} {
+			ad := []byte("")
+			if aad != "" {
+				ad = []byte("." + aad)
+			}
+			parts, _ := cph.encrypt(key, ad, []byte("crafted"))
+			js := fmt.Sprintf(`{%s"unprotected":{"alg":"dir","enc":"A128GCM"},"iv":"%s","ciphertext":"%s","tag":"%s"`,
+				prot, vC16B64.EncodeToString(parts.iv), vC16B64.EncodeToString(parts.ciphertext), vC16B64.EncodeToString(parts.tag))
+			if aad != "" {
+				js += `,"aad":"` + aad + `"`
+			}
+			js += "}"
+			var out []byte
+			err, pan := vC16Try(func() error {
+				o, err := ParseEncrypted(js)
+				if err != nil {
+					return err
+				}
+				out, err = o.Decrypt(key)
+				return err
+			})
+			k.count("crafted", "no-protected-header")
+			if pan != "" {
+				k.fail(0, len(js), "crafted-no-panic", "", fmt.Sprintf("%s: %s", js, pan))
+			} else if err != nil || string(out) != "crafted" {
+				// RFC 7516 5.1 step 14: an absent protected header is the empty string in the AAD
+				k.fail(0, len(js), "crafted-rfc7516-aad", "", fmt.Sprintf("%s: %q, %v", js, out, err))
+			}
+		}
+	}
 }
